@@ -12,7 +12,12 @@
    stake distributions (exact integer arithmetic, no float premise), decay cap, constructibility of Uniform /
    StakeWeighted / Decay / AllSame / FA1-with-stake-weighted-fallback (k >= 1) / TurbineSampler on one or two
    validators, termination of every constructor, purity of every strategy (PartitionSampler and
-   FA1-with-partition included) in (validator set, random source).
+   FA1-with-partition included) in (validator set, random source) - also for an instance that is reused
+   through both traits: the decaying sampler's counters (incremented by single draws, copied by Clone) are an
+   explicit state of the model (`sample_single`, `sample_quorum_from`, `reset_counts`), sample_quorum leaves
+   them all at zero, hence every committee drawn right after a completed sample_quorum or after reset() is the
+   committee of a fresh instance, whatever happened before (the first quorum after unreset single draws
+   starts from their counters - that is the documented contract of the crate, and what the model does).
    Still refuted for the current code (known findings): constructibility of PartitionSampler (empty bin), of
    FA1-with-partition (Rotor::new_fa1) and of FA2 (sum f <= 1.0 assertion).
    PARTIAL (validated by the oracle / correspondence only, because it needs reasoning about binary64):
@@ -150,6 +155,21 @@ Theorem C17_pure_in_validators_and_rng : forall st stakes sm1 sm2 s,
   construct_current st stakes = COk sm1 -> construct_current st stakes = COk sm2 ->
   sample_quorum sm1 s = sample_quorum sm2 s.
 Proof. exact pure_in_validators_and_rng. Qed.
+(* one instance reused through both traits (single draws, quorums, reset, from any counter state):
+   sample_quorum leaves every counter of the decaying sampler at zero, so the committee drawn right after a
+   completed sample_quorum - or after reset() - is the committee a FRESH instance draws from the same words *)
+Theorem C17_counters_zero_after_quorum : forall sm counts s q c r,
+  sample_quorum_from sm counts s = Ok (q, c) r ->
+  match sm with SmDecay _ _ _ => c = fresh_counts sm | _ => c = counts end.
+Proof. exact counters_zero_after_quorum. Qed.
+Theorem C17_quorum_after_quorum_is_fresh : forall sm counts s1 q1 c1 r1 s2,
+  sample_quorum_from sm counts s1 = Ok (q1, c1) r1 ->
+  quorum_out (sample_quorum_from sm c1 s2) = sample_quorum sm s2.
+Proof. exact quorum_after_quorum_is_fresh. Qed.
+Theorem C17_quorum_after_reset_is_fresh : forall sm counts s,
+  quorum_out (sample_quorum_from sm (reset_counts sm counts) s) = sample_quorum sm s.
+Proof. exact quorum_after_reset_is_fresh. Qed.
+
 (* the strategies without bins never read the order (either version) ... *)
 Theorem C17_pure_in_validators_and_rng_order_free : forall cv st stakes o1 o2,
   order_free st = true -> construct cv st stakes o1 = construct cv st stakes o2.
@@ -203,6 +223,9 @@ Print Assumptions C17_fa2_constructible_refuted.
 Print Assumptions C17_fa1_stake_constructible_pinned_refuted.
 Print Assumptions C17_turbine_constructible_pinned_refuted.
 Print Assumptions C17_pure_in_validators_and_rng.
+Print Assumptions C17_counters_zero_after_quorum.
+Print Assumptions C17_quorum_after_quorum_is_fresh.
+Print Assumptions C17_quorum_after_reset_is_fresh.
 Print Assumptions C17_pure_in_validators_and_rng_order_free.
 Print Assumptions C17_partition_pure_in_rng_pinned_refuted.
 Print Assumptions C17_nonvacuous.
